@@ -105,7 +105,35 @@ def size_of(t):
 def _prop(p):
     if p[0] == "dur":
         return {1: P.seconds, 60: P.minutes, 3600: P.hours, 86400: P.days}[p[1]]
-    return {"start": P.start, "end": P.end}[p[0]] if p[0] in ("start", "end") else P.field(p[1])
+    if p[0] in ("start", "end"):
+        return {"start": P.start, "end": P.end}[p[0]]
+    if len(p) > 2 and p[2] == "callable":
+        # field(<accessor function>) instead of field(<name>): the same property
+        return P.field(lambda e, _n=p[1]: getattr(e, _n))
+    return P.field(p[1])
+
+
+# containers handed to one_of / has_any / has_all that the CALLER keeps: they are emptied and refilled
+# with junk once the expression is built (poison()), which must not change the filter
+_CALLER_OWNED = []
+
+
+def poison():
+    for c in _CALLER_OWNED:
+        c.clear()
+        c.update({"junk", -12345})
+    _CALLER_OWNED.clear()
+
+
+def _values(vs):
+    """the `values` argument of one_of / has_any / has_all: alternately a one-shot iterator (the
+    filter must have consumed it when it was built) and a set the caller goes on using"""
+    vs = list(vs)
+    if len(vs) % 2:
+        s_ = set(vs)
+        _CALLER_OWNED.append(s_)
+        return s_
+    return iter(vs)
 
 
 def build_filter(f):
@@ -123,18 +151,18 @@ def build_filter(f):
         elif p[0] == "end":
             prop = P.end
         else:
-            prop = P.field(p[1])
+            prop = _prop(p)
         if k == "cmp":
             v = pyval(f["v"])
             return {"ge": prop >= v, "le": prop <= v, "gt": prop > v, "lt": prop < v,
                     "eq": prop == v, "ne": prop != v}[f["c"]]
         # `values` is declared Iterable: hand over a one-shot iterator (a generator), which the
         # filter must have consumed when it was built — evaluating it later must not depend on it
-        return P.one_of(prop, (pyval(v) for v in f["vs"]))
+        return P.one_of(prop, _values(pyval(v) for v in f["vs"]))
     if k == "hasany":
-        return P.has_any(P.field("tags"), iter(list(f["vs"])))
+        return P.has_any(P.field("tags"), _values(f["vs"]))
     if k == "hasall":
-        return P.has_all(P.field("tags"), (v for v in f["vs"]))
+        return P.has_all(P.field("tags"), _values(f["vs"]))
     subs = [build_filter(g) for g in f["fs"]]
     acc = subs[0]
     for g in subs[1:]:
@@ -151,6 +179,12 @@ def pyval(v):
 
 
 def build(t, env=None, leaf_hook=None, _memo=None):
+    obj = _build_top(t, env, leaf_hook, _memo)
+    poison()
+    return obj
+
+
+def _build_top(t, env=None, leaf_hook=None, _memo=None):
     """Build the real calgebra object.  Equal sub-expressions (in particular equal stored leaves) are
     ONE Python object — users reuse timeline objects: `(a & b) & (a & c)`, `free = work - busy;
     (free & x) | (free & y)` — so aliasing inside a tree, and two live evaluations of one node, are
@@ -206,10 +240,13 @@ def _focus(t, env, ctx, warm):
     memo = {}
     if ctx is not None:
         root = _build(ctx, env, None, memo)
+        poison()
         for (a, b, rev) in (warm or []):
             for _ in root[slice(a, b, -1 if rev else None)]:
                 pass
-    return _build(t, env, None, memo)
+    obj = _build(t, env, None, memo)
+    poison()
+    return obj
 
 
 def run_slice(t, a, b, rev, env=None, ctx=None, warm=None):
@@ -361,7 +398,7 @@ class Gen:
             return copy.deepcopy(r.choice(made))
         lf = self._leaf(mode, rich)
         if lf["evs"]:
-            self.made = made + [lf]
+            self.made = made + [copy.deepcopy(lf)]      # (a copy: the leaf itself may be edited later)
         return lf
 
     def _leaf(self, mode=None, rich=None):
@@ -405,7 +442,7 @@ class Gen:
     def tree(self, depth, ops, leaf_mode=None, rich=None):
         t = self._tree(depth, ops, leaf_mode, rich)
         if t["op"] != "stored":
-            self.subtrees = (getattr(self, "subtrees", []) if self.next_id > 1 else []) + [t]
+            self.subtrees = (getattr(self, "subtrees", []) if self.next_id > 1 else []) + [copy.deepcopy(t)]
         return t
 
     def _tree(self, depth, ops, leaf_mode=None, rich=None):
@@ -503,7 +540,7 @@ class Gen:
                 v = ["int", r.randrange(-1, self.m + 2)]
             return {"k": "cmp", "p": p, "c": r.choice(["ge", "le", "gt", "lt", "eq", "ne"]), "v": v}
         if k < 0.5:
-            return {"k": "cmp", "p": ["field", "prio"], "c": r.choice(["eq", "ne"]),
+            return {"k": "cmp", "p": ["field", "prio"] + (["callable"] if r.random() < 0.4 else []), "c": r.choice(["eq", "ne"]),
                     "v": r.choice([self.value("int"), ["none"]])}
         if k < 0.6:
             return {"k": "cmp", "p": ["field", "name"], "c": r.choice(["eq", "ne"]),
